@@ -283,7 +283,7 @@ def pipe_harness(ob, concrete=None):
             m.verify()
         except (DiagnosticException, PassFailedException, NotImplementedError) as e:
             if ex is not None:
-                ex.note("pass_failed", str(e)[:100])
+                ex.note("pass_failed", type(e).__name__)
             return True
         rf = next(o for o in m.walk() if isinstance(o, riscv_func.FuncOp))
         mach = rvsem.Machine(32, "m")
